@@ -38,10 +38,21 @@ def readable_fixtures(workers=16):
     return [p for p, r in sorted(classify_fixtures(workers).items()) if r == "ok"]
 
 
+def _limit_worker():
+    """a worker that runs away in memory (a changed library may do that) must fail with MemoryError inside the call - where it is
+    recorded like any other exception - instead of being killed by the kernel, which would take the whole run down"""
+    import resource
+    lim = 8 * 2 ** 30
+    try:
+        resource.setrlimit(resource.RLIMIT_AS, (lim, lim))
+    except (ValueError, OSError):
+        pass
+
+
 def pmap(fn, items, workers=16, chunksize=1):
     if workers <= 1 or len(items) <= 1:
         return [fn(x) for x in items]
-    with ProcessPoolExecutor(workers) as ex:
+    with ProcessPoolExecutor(workers, initializer=_limit_worker) as ex:
         return list(ex.map(fn, items, chunksize=chunksize))
 
 
